@@ -120,7 +120,7 @@ static rc::Gen<Case> gen_int(int tier) {
     int base = 0, trailing = 0;
     if (ex) {
       base = *rc::gen::weightedOneOf<int>({{5, rc::gen::elementOf(BASES)}, {1, range<int>(2, 36)}});
-      trailing = *range<int>(0, 1);
+      trailing = *rc::gen::weightedElement<int>({{6, 0}, {4, 1}, {1, 2}, {1, 256}, {1, -2}, {1, 0x40000000}});  // "non-zero" is any non-zero int
     }
     // interesting magnitudes: around every type limit, 2^64, 0
     auto boundary = rc::gen::exec([]() -> u128 {
@@ -451,7 +451,7 @@ static rc::Gen<Case> gen_flt(int) {
     int type = *range<int>(0, 1);
     int mode = *range<int>(0, 2) ? 1 : 0;
     int ex = *range<int>(0, 1);
-    int trailing = ex ? *range<int>(0, 1) : 0;
+    int trailing = ex ? *rc::gen::weightedElement<int>({{6, 0}, {4, 1}, {1, 2}, {1, 256}, {1, -2}}) : 0;
     std::string s = *gen_ws();
     int sg = *rc::gen::weightedElement<int>({{5, 0}, {2, 1}, {4, 2}});
     s += sg == 1 ? "+" : sg == 2 ? "-" : "";
